@@ -1,7 +1,7 @@
 import OptunaVerif.Lemmas.FileLock
 /-!
-A timing discipline under which `safeSched` holds for the **open lock** (`os.stat` reports the lock
-file's own creation stamp), crashes of holders included:
+A timing discipline under which `safeSched` holds for **both lock classes** (since repo fb3aa05 both
+sample the lock file's own creation stamp), crashes of holders included:
 
 * (H0) *punctual holders*: the clock never passes `stamp + grace` while the creator of the lock file is alive;
 * (W0) *no stalled waiter*: the clock does not move while a live waiter is between its `stat` and the
@@ -65,7 +65,7 @@ theorem stepW_now (cfg : Cfg) (sh : Shared) (w : Nat) (wk : Worker) : (stepW cfg
   · rfl
   · split
     · rfl
-    · simp only; split <;> rfl
+    · split <;> rfl
   · rfl
   · split <;> rfl
   · exact doRename_now _ _ _ _ _
@@ -109,8 +109,8 @@ theorem doUnlink_winv (g : Nat) (sh : Shared) (w : Nat) (wk : Worker) (live : Na
   · exact ⟨hw.seen, fun _ => hw.timer hpc, fun h => by simp [hp] at h⟩
   · exact ⟨by simpa [hfm] using hw.seen, fun _ => by simpa [hfm, hfl] using hw.timer hpc, fun h => by simp [hf] at h⟩
 
-/-- the stepping worker's own invariant (open lock) -/
-theorem stepW_winv (cfg : Cfg) (g : Nat) (hk : cfg.kind = .openExcl) (hg : cfg.grace = some g) (sh : Shared) (w : Nat)
+/-- the stepping worker's own invariant -/
+theorem stepW_winv (cfg : Cfg) (g : Nat) (hg : cfg.grace = some g) (sh : Shared) (w : Nat)
     (wk : Worker) (live : Nat → Bool) (hs : SInv g sh live) (hw : WInv g sh live wk) :
     WInv g (stepW cfg sh w wk).1 live (stepW cfg sh w wk).2.1 := by
   unfold stepW
@@ -121,7 +121,7 @@ theorem stepW_winv (cfg : Cfg) (g : Nat) (hk : cfg.kind = .openExcl) (hg : cfg.g
     have hne : wk.pc ≠ .resetTimer := by simp [hpc]
     split
     · refine ⟨hw.seen, fun _ => hw.timer hne, fun h => ?_⟩
-      simp [hk, inWindow] at h
+      cases hkk : cfg.kind <;> simp [hkk, inWindow] at h
     · refine ⟨hw.seen, fun _ => hw.timer hne, fun h => ?_⟩
       simp [hg, inWindow] at h
   · -- closing
@@ -131,7 +131,6 @@ theorem stepW_winv (cfg : Cfg) (g : Nat) (hk : cfg.kind = .openExcl) (hg : cfg.g
     split
     · exact ⟨hw.seen, fun _ => hw.timer hne, fun h => by simp [inWindow] at h⟩
     · rename_i o s hl
-      simp only [statVal, hk]
       have key : ∀ (wk' : Worker), wk'.mtime = some s → wk'.pc ≠ .tkRename →
           (wk'.pc ≠ .tkRename ∧ ∃ m, wk'.mtime = some m ∧ sh.now ≤ m + g) ∨
           (∃ o s', sh.lock = some (o, s') ∧ live o = false ∧ wk'.mtime = some s') := by
@@ -318,7 +317,7 @@ theorem tinv_crash (cfg : Cfg) (g : Nat) (st : St) (c : Nat) (hi : TInv g st) : 
         | false => rfl
         | true => rw [hmono o hx] at h4; simp at h4
 
-theorem tinv_stepw (cfg : Cfg) (g : Nat) (hk : cfg.kind = .openExcl) (hg : cfg.grace = some g) (st : St) (a : Nat)
+theorem tinv_stepw (cfg : Cfg) (g : Nat) (hg : cfg.grace = some g) (st : St) (a : Nat)
     (hi : TInv g st) (hp : punctualAt g st (.step a) = true) : TInv g (step cfg st (.step a)).1 := by
   have hown : Inv (step cfg st (.step a)).1 := inv_step cfg st (.step a) hi.own (liveTakeoverAt_of_tinv g st (.step a) hi)
   cases ha : st.ws[a]? with
@@ -341,7 +340,7 @@ theorem tinv_stepw (cfg : Cfg) (g : Nat) (hk : cfg.kind = .openExcl) (hg : cfg.g
           rw [updAt_self st.ws w ak _ ha] at hw
           simp only [Option.some.injEq] at hw
           subst hw
-          exact stepW_winv cfg g hk hg st.sh w ak (isLive st) hi.shared (hi.workers w ak ha hd)
+          exact stepW_winv cfg g hg st.sh w ak (isLive st) hi.shared (hi.workers w ak ha hd)
         · rw [updAt_other st.ws a w _ hwa] at hw
           have old := hi.workers w wk hw hl
           have hnow := stepW_now cfg st.sh a ak
@@ -371,14 +370,14 @@ theorem tinv_stepw (cfg : Cfg) (g : Nat) (hk : cfg.kind = .openExcl) (hg : cfg.g
                 rw [h2.1] at h4
                 simp [isLive, ha, hd] at h4
 
-theorem tinv_step (cfg : Cfg) (g : Nat) (hk : cfg.kind = .openExcl) (hg : cfg.grace = some g) (st : St) (e : Ev)
+theorem tinv_step (cfg : Cfg) (g : Nat) (hg : cfg.grace = some g) (st : St) (e : Ev)
     (hi : TInv g st) (hp : punctualAt g st e = true) : TInv g (step cfg st e).1 := by
   cases e with
   | tick => exact tinv_tick cfg g st hi hp
   | crash c => exact tinv_crash cfg g st c hi
-  | step a => exact tinv_stepw cfg g hk hg st a hi hp
+  | step a => exact tinv_stepw cfg g hg st a hi hp
 
-theorem safeSched_of_punctual (cfg : Cfg) (g : Nat) (hk : cfg.kind = .openExcl) (hg : cfg.grace = some g) (evs : List Ev) :
+theorem safeSched_of_punctual (cfg : Cfg) (g : Nat) (hg : cfg.grace = some g) (evs : List Ev) :
     ∀ (st : St), TInv g st → punctualSched cfg g st evs = true → safeSched cfg st evs = true := by
   induction evs with
   | nil => intro st _ _; rfl
@@ -386,6 +385,6 @@ theorem safeSched_of_punctual (cfg : Cfg) (g : Nat) (hk : cfg.kind = .openExcl) 
     intro st hi hp
     simp only [punctualSched, Bool.and_eq_true] at hp
     rw [safeSched_cons]
-    exact ⟨liveTakeoverAt_of_tinv g st e hi, ih _ (tinv_step cfg g hk hg st e hi hp.1) hp.2⟩
+    exact ⟨liveTakeoverAt_of_tinv g st e hi, ih _ (tinv_step cfg g hg st e hi hp.1) hp.2⟩
 
 end OptunaVerif.FileLock
